@@ -107,7 +107,7 @@ def main():
             for pid in ([] if suite_only else m["props"]):
                 env = dict(os.environ, VF_REPO=WT, VF_EVIDENCE_DIR="/dev/shm/mut-evidence", VF_REPLAY_DIR="/dev/shm/mut-replays")
                 t0 = time.time()
-                rc, out = sh(["python3", "/verif/verif.py", "check", pid, "--tier", "quick"], cwd="/verif", env=env, timeout=3600)
+                rc, out = sh(["python3", os.path.join(os.environ.get("VERIF_SNAP", "/verif"), "verif.py"), "check", pid, "--tier", "quick"], cwd=os.environ.get("VERIF_SNAP", "/verif"), env=env, timeout=3600)
                 res[pid] = {0: "missed", 1: "CAUGHT", 2: "inconclusive"}.get(rc, "rc%d" % rc) + "(%ds)" % (time.time() - t0)
             line = "%-34s %-11s %s%s  -- %s" % (m["id"], suite, " ".join("%s:%s" % kv for kv in res.items()), "  [control: must stay green]" if m["control"] else "", m["note"])
             print(line, flush=True)
